@@ -101,4 +101,22 @@ pub mod verif {
 	pub fn config_change_signal(config: &crate::Config) -> std::sync::Arc<tokio::sync::Notify> {
 		config.change_signal.clone()
 	}
+
+	/// The stream the workers use to follow configuration changes (`Config::watch()`), with its
+	/// `next()` future (first call resolves at once, later ones at a change signal).
+	#[derive(Debug)]
+	pub struct ConfigWatchedHandle(crate::config::ConfigWatched);
+
+	/// `Config::watch()`.
+	#[must_use]
+	pub fn config_watch(config: &crate::Config) -> ConfigWatchedHandle {
+		ConfigWatchedHandle(config.watch())
+	}
+
+	impl ConfigWatchedHandle {
+		/// `ConfigWatched::next()`.
+		pub fn next(&mut self) -> impl std::future::Future<Output = ()> + '_ {
+			self.0.next()
+		}
+	}
 }
